@@ -851,3 +851,23 @@ Definition resume_m (a : assets) (s : session) (r : resume) (tmo : text) : st * 
               end
           end
     end.
+
+(* ---- prepareForSprint --------------------------------------------------------------------------------------- *)
+
+(* The one thing Resume does before its three checks (session.go prepareForSprint): when the trigger carries the
+   summary of a parent run (flow_action trigger) and the transient field `parentRun` is not set yet, the summary is
+   read into it.  `parentRun` is not part of the session's JSON (it is recomputed from the trigger by this very
+   function on every call of a restored session); reading the summary can fail with a Go error when the summary
+   stored in the trigger is not well-formed - the summaries the harness uses are, and the model does not represent
+   that error (an assumption listed in checks/C10.json).  [resume_mp] is [resume_m] with this transient flag
+   threaded through, so that "what a rejected Resume may have touched" is stated rather than argued in a comment. *)
+Definition trigger_has_run (t : trigger) : bool := match t with TFlowAction => true | _ => false end.
+
+Definition prepare_for_sprint (s : session) (parent_loaded : bool) : bool :=
+  parent_loaded || trigger_has_run (s_trigger s).
+
+Definition resume_mp (a : assets) (s : session) (parent_loaded : bool) (r : resume) (tmo : text)
+  : st * bool * resume_outcome :=
+  let loaded := prepare_for_sprint s parent_loaded in              (* s.prepareForSprint() *)
+  let '(x, o) := resume_m a s r tmo in
+  (x, loaded, o).
